@@ -263,6 +263,24 @@ func vNewMessage(a []string) (*entities.Message, uint16, error) {
 	return msg, uint16(id), nil
 }
 
+var vLast *entities.Message
+
+// vStallWriter stalls the handler's first Write until released
+type vStallWriter struct {
+	*httptest.ResponseRecorder
+	entered, release chan struct{}
+	once             bool
+}
+
+func (w *vStallWriter) Write(b []byte) (int, error) {
+	if !w.once {
+		w.once = true
+		close(w.entered)
+		<-w.release
+	}
+	return w.ResponseRecorder.Write(b)
+}
+
 func vAdded() string {
 	mutex.Lock()
 	defer mutex.Unlock()
@@ -311,6 +329,7 @@ func vStoreOp(a []string) string {
 				}
 			}
 			msg.AddSet(set)
+			vLast = msg
 			addIPFIXMessage(msg)
 			return vAdded()
 		case "data":
@@ -352,10 +371,63 @@ func vStoreOp(a []string) string {
 				}
 			}
 			msg.AddSet(set)
+			vLast = msg
 			addIPFIXMessage(msg)
 			return vAdded()
 		}
 		return "bad-op"
+	case "recordsc":
+		// a records query during which k further copies of the newest message arrive: the arrivals are
+		// started once the handler is writing its response (it then holds the store lock) and get 20 ms
+		// to run before the response is allowed to complete
+		if len(a) != 5 {
+			return "bad-op"
+		}
+		k, err := strconv.Atoi(a[4])
+		if err != nil || k < 0 || k > 64 {
+			return "bad-op"
+		}
+		q := url.Values{}
+		if v, ok, err := vParam(a[2]); err != nil {
+			return "bad-op"
+		} else if ok {
+			q.Set("count", v)
+		}
+		if v, ok, err := vParam(a[3]); err != nil {
+			return "bad-op"
+		} else if ok {
+			q.Set("format", v)
+		}
+		target := "/records"
+		if enc := q.Encode(); enc != "" {
+			target += "?" + enc
+		}
+		req := httptest.NewRequest(a[1], target, nil)
+		sw := &vStallWriter{ResponseRecorder: httptest.NewRecorder(), entered: make(chan struct{}), release: make(chan struct{})}
+		done := make(chan struct{})
+		go func() { defer close(done); defer func() { recover() }(); flowRecordHandler(sw, req) }()
+		select {
+		case <-sw.entered:
+		case <-done:
+		}
+		arrived := make(chan struct{})
+		go func() {
+			defer close(arrived)
+			mutex.Lock()
+			empty := len(flowRecords) == 0
+			mutex.Unlock()
+			for i := 0; i < k && vLast != nil && !empty; i++ {
+				addIPFIXMessage(vLast)
+			}
+		}()
+		select {
+		case <-arrived:
+		case <-time.After(20 * time.Millisecond):
+		}
+		close(sw.release)
+		<-done
+		<-arrived
+		return fmt.Sprintf("%d %s", sw.Code, vHex(sw.Body.Bytes()))
 	case "records":
 		if len(a) != 4 {
 			return "bad-op"
